@@ -126,6 +126,10 @@ impl Package {
 
         // TODO: reduce memory by replacing this with an impl that writes the files immediately after reading them from the archive
         // instead of reading each file entirely into memory (while the archive is also entirely in memory) before writing them
+        // the permission bits of a directory are applied once everything below it is in place:
+        // a read-only directory would otherwise refuse its own entries to anyone but root
+        let mut dir_permissions = Vec::new();
+
         for file in self.files()? {
             let file = file?;
             let file_path = contained_path(dest.as_ref(), &file.metadata.path)?;
@@ -142,7 +146,7 @@ impl Package {
             match file.metadata.mode {
                 FileMode::Dir { .. } => {
                     fs::create_dir_all(&file_path)?;
-                    fs::set_permissions(&file_path, perms)?;
+                    dir_permissions.push((file_path, perms));
                 }
                 FileMode::Regular { .. } => {
                     let mut f = fs::File::create(&file_path)?;
@@ -161,6 +165,16 @@ impl Package {
                         reason: "only regular files, directories and symbolic links can be extracted",
                     });
                 }
+            }
+        }
+
+        for (dir_path, perms) in dir_permissions.into_iter().rev() {
+            refuse_symlinks_on_the_way(dest.as_ref(), &dir_path)?;
+            if dir_path
+                .symlink_metadata()
+                .is_ok_and(|m| m.file_type().is_dir())
+            {
+                fs::set_permissions(&dir_path, perms)?;
             }
         }
 
